@@ -202,6 +202,15 @@ type Exec struct {
 	U        *Universe
 	Backends []*Backend
 	FileDir  string
+	Gate     *gate // when set, an UpdateFunc event carrying "gate" holds its transaction open at its first callback
+}
+
+// gate turns the update callback of one operation into a scheduling point: the operation signals
+// that its store transaction is open (snapshot taken) and waits until the driver releases it.
+type gate struct {
+	started chan struct{}
+	release chan struct{}
+	once    sync.Once
 }
 
 func (x *Exec) gammaDoc(v V) *document.Document {
@@ -711,7 +720,14 @@ func (x *Exec) Run(b *Backend, e E, genIds [][]byte) E {
 		case "UpdateFunc":
 			inner := x.updater(toList(e["upd"]))
 			calls := make([]interface{}, 0)
+			_, gated := e["gate"]
 			err := db.UpdateFunc(x.gammaQuery(e), func(d *document.Document) *document.Document {
+				if gated && x.Gate != nil {
+					x.Gate.once.Do(func() {
+						close(x.Gate.started)
+						<-x.Gate.release
+					})
+				}
 				calls = append(calls, x.alphaDoc(d))
 				return inner(d)
 			})
